@@ -166,6 +166,21 @@ func isExpirationLoad(v ssa.Value) bool {
 
 func isClockValue(v ssa.Value) bool {
 	for _, o := range path.Origins(v) {
+		// a variable captured by a closure: what the enclosing function bound to it
+		if fv, isFV := o.(*ssa.FreeVar); isFV {
+			if !freeVarIsClock(fv) {
+				return false
+			}
+			continue
+		}
+		if u, isLoad := o.(*ssa.UnOp); isLoad && u.Op == token.MUL {
+			if fv, isFV := u.X.(*ssa.FreeVar); isFV {
+				if !freeVarIsClock(fv) {
+					return false
+				}
+				continue
+			}
+		}
 		c, ok := o.(*ssa.Call)
 		if !ok || !path.IsCallTo(c, "time", "Time.UnixNano") {
 			return false
@@ -177,6 +192,50 @@ func isClockValue(v ssa.Value) bool {
 		}
 	}
 	return true
+}
+
+// freeVarIsClock: every closure creation binds the captured variable to a clock value
+// (directly, or to a local cell whose only stores are clock values).
+func freeVarIsClock(fv *ssa.FreeVar) bool {
+	fn := fv.Parent()
+	par := fn.Parent()
+	if par == nil {
+		return false
+	}
+	idx := -1
+	for i, f := range fn.FreeVars {
+		if f == fv {
+			idx = i
+		}
+	}
+	n := 0
+	for _, in := range path.Instrs(par) {
+		mc, ok := in.(*ssa.MakeClosure)
+		if !ok || mc.Fn != ssa.Value(fn) || idx >= len(mc.Bindings) {
+			continue
+		}
+		n++
+		b := mc.Bindings[idx]
+		if al, isCell := b.(*ssa.Alloc); isCell {
+			stores := 0
+			for _, rf := range *al.Referrers() {
+				if st, ok := rf.(*ssa.Store); ok && st.Addr == ssa.Value(al) {
+					stores++
+					if !isClockValue(st.Val) {
+						return false
+					}
+				}
+			}
+			if stores == 0 {
+				return false
+			}
+			continue
+		}
+		if !isClockValue(b) {
+			return false
+		}
+	}
+	return n > 0
 }
 
 func runC08(p *core.Program, r *core.Report) {
@@ -242,11 +301,14 @@ func runC08(p *core.Program, r *core.Report) {
 			}
 			// ... and exactly then: no other condition decides whether it starts
 			for _, gd := range path.Guards(fn, in.Block()) {
+				if gd.Threaded {
+					continue // a flag: what it stands for is listed in its place
+				}
 				cd, ok := path.CondOf(gd.If)
 				onInterval := ok && (cd.X == ssa.Value(ct) || cd.Y == ssa.Value(ct))
 				if !onInterval {
 					r.Obligation("PT3", false, nil)
-					r.Violation(core.Diag{Rule: "PT3", Func: "cache.New", Object: "janitor condition", Pos: p.InstrPos(gd.If),
+					r.Violation(core.Diag{Rule: "PT3", Func: "cache.New", Object: "janitor condition", Pos: p.Pos(fn.Pos()),
 						Reason: "whether the cleanup goroutine starts depends on something other than the cleanup interval: with a positive interval configured expired entries may never be removed"})
 				}
 			}
@@ -467,6 +529,22 @@ func runC08(p *core.Program, r *core.Report) {
 // with the lookup's.
 func expiryAgreement(p *core.Program, r *core.Report, fns []*ssa.Function) {
 	cl := &order.Classifier{IsField: isExpirationLoad, IsClock: isClockValue}
+	// closures count as functions of their own (a predicate handed to maps.DeleteFunc
+	// decides about expiry like DeleteExpired's loop body did)
+	{
+		var all []*ssa.Function
+		var addf func(f *ssa.Function)
+		addf = func(f *ssa.Function) {
+			all = append(all, f)
+			for _, a := range f.AnonFuncs {
+				addf(a)
+			}
+		}
+		for _, f := range fns {
+			addf(f)
+		}
+		fns = all
+	}
 
 	// ---- which points can the writer store?
 	writer := map[order.Point]bool{}
